@@ -43,7 +43,12 @@ def frags(body: list[nodes.Node], guards: tuple = (), gnodes: tuple = (), loops:
             if n.else_:
                 yield from frags(n.else_, neg, gn, loops)
         elif isinstance(n, nodes.For):
-            yield from frags(n.body, guards, gnodes, loops + (expr_text(n.iter),))
+            if n.test is not None:
+                # a loop filter (`for x in XS if T`) guards the body exactly like `{% if T %}` around the whole body; the loop's
+                # `else` part is not under it
+                yield from frags(n.body, guards + ((expr_text(n.test), True),), gnodes + (n.test,), loops + (expr_text(n.iter),))
+            else:
+                yield from frags(n.body, guards, gnodes, loops + (expr_text(n.iter),))
             if n.else_:
                 yield from frags(n.else_, guards, gnodes, loops)
         elif isinstance(n, (nodes.With, nodes.Scope, nodes.CallBlock, nodes.FilterBlock, nodes.AssignBlock)):
